@@ -39,15 +39,10 @@ def run(ctx):
     triage = cone.load_triage(TRIAGE)
     ctx.floor('H1', 'bodies in the decode-side cone', len(parent), 8)
     groups = cone.group_keys(srcs)
-    for key, lst in groups:
-        s = lst[0]
-        cls = triage.get(key)
+    def describe(s):
         chain = ' -> '.join(x.split('::')[-1] if '{closure' not in x else x.split('::')[-2] + '::{closure}' for x in G.chain(parent, s.fn))
-        if cls and cls[0] == 'infeasible':
-            ctx.ok('H1.panic-source(reviewed-infeasible)', key, s.loc, cls[1])
-        else:
-            ctx.fail('H1.panic-source', key, s.loc,
-                     'peer-reachable panic source (%s) via %s%s' % (s.kind, chain, ('; triage: ' + cls[1]) if cls else ''))
+        return 'peer-reachable panic source (%s) via %s' % (s.kind, chain)
+    cone.judge(ctx, 'H1.panic-source', groups, triage, describe)
     if not srcs:
         ctx.ok('H1.panic-source', 'none', '', 'no panic source in the cone')
 
